@@ -521,9 +521,22 @@ func traversalRule(c *core.Ctx, name string, fn *ssa.Function, LT, GT int64) str
 	pathT := &ir.Term{Op: "load", Aux: "0", Args: []*ir.Term{{Op: "faddr", Aux: fPath, Args: []*ir.Term{list}}}}
 	recordsPath := fn.Signature.Results().Len() == 2
 
-	segs := append([]*ir.Path{}, an.Segs[nil]...)
+	var segs []*ir.Path
+	// the insertion-path buffer of the list is made by the constructor: a test `path == nil` (a shared traversal that
+	// records only when it is given a buffer, called with list.path) is decided - the nil side is not a behaviour
+	pathNil := &ir.Term{Op: "bin", Aux: "==", Args: sorted2(ir.Nil, pathT)}
+	keep := func(p *ir.Path) bool { return polarity(p, pathNil) <= 0 }
+	for _, p := range an.Segs[nil] {
+		if keep(p) {
+			segs = append(segs, p)
+		}
+	}
 	for _, h := range an.Headers {
-		segs = append(segs, an.Segs[h]...)
+		for _, p := range an.Segs[h] {
+			if keep(p) {
+				segs = append(segs, p)
+			}
+		}
 	}
 	// first pass: the index offset c (index = counter + c) from the segments that inspect a successor;
 	// second pass: the checks proper (the level loop's head needs c)
